@@ -5,10 +5,10 @@ PATCH="$1"; ID="$2"; TIER="${3:-quick}"
 WT=$(mktemp -d /tmp/vqmut_XXXXXX)
 git -C /repo worktree add -q --detach "$WT" HEAD >/dev/null 2>&1 || { echo "worktree failed"; exit 2; }
 git -C "$WT" apply "$PATCH" || { echo "patch does not apply"; git -C /repo worktree remove --force "$WT"; exit 2; }
-EV=/verif/evidence/$ID.json; [ -f "$EV" ] && cp "$EV" "$WT/.evidence_backup"
-VQ_REPO="$WT" /verif/bin/check "$ID" --tier "$TIER" 2>&1 | grep -E "VIOLATION|KNOWN|OK tier|violation:" | head -8
+OUT=$(mktemp -d /tmp/vqmutout_XXXXXX)
+VQ_OUT="$OUT" VQ_REPO="$WT" /verif/bin/check "$ID" --tier "$TIER" 2>&1 | grep -E "VIOLATION|KNOWN|OK tier|violation:" | head -8
 rc=${PIPESTATUS[0]}
-[ -f "$WT/.evidence_backup" ] && cp "$WT/.evidence_backup" "$EV"   # the mutant run must not leave its evidence behind
+rm -rf "$OUT"
 git -C /repo worktree remove --force "$WT"
 rm -rf "$WT"
 exit $rc
